@@ -266,7 +266,11 @@ NAMES = {"x": "num", "p": "neg", "P": "lnot", "q": "fac", "Q": "qm", "i": "add",
 SHARED = {"none": {}, "prefix=infix": {"p": "minus", "i": "minus"}, "prefix=postfix": {"p": "incr", "q": "incr"}, "both": {"p": "minus", "i": "minus", "P": "incr", "q": "incr"}}
 
 
-def run_impl(table, toks):
+_INSTANCES: dict = {}
+
+
+def run_impl(table, toks, reuse: bool = True):
+    """reuse=True: one parser instance per table, used for every stream of that table (as an application would); reuse=False: a fresh one."""
     from pest.pairs import Pair, Pairs
     from pest.pratt import PrattParser
     from pest.state import RuleFrame
@@ -297,7 +301,15 @@ def run_impl(table, toks):
             return (revi[op.name], lhs, rhs)
 
     stream = Pairs(pairs).stream()
-    tree = T().parse_expr(stream)
+    if reuse:
+        key = repr(table)
+        if key not in _INSTANCES:
+            _INSTANCES.clear()            # tables are visited one after the other
+            _INSTANCES[key] = T()
+        parser = _INSTANCES[key]
+    else:
+        parser = T()
+    tree = parser.parse_expr(stream)
     consumed = stream.pos
     return tree, consumed
 
@@ -317,7 +329,12 @@ def judge(table, toks):
     try:
         got, consumed = run_impl(table, toks)
     except Exception as exc:  # noqa: BLE001
-        return {"kind": f"exc:{type(exc).__name__}", "expected": "a tree", "got": str(exc)[:100]}, False
+        try:
+            run_impl(table, toks, reuse=False)
+            hist = " (only on a parser instance that has parsed other streams before; a fresh instance parses it)"
+        except Exception:  # noqa: BLE001
+            hist = ""
+        return {"kind": f"exc:{type(exc).__name__}", "expected": "a tree", "got": str(exc)[:100] + hist}, False
     if consumed != len(toks):
         return {"kind": "not-consumed", "expected": len(toks), "got": consumed}, False
     want, wc = pest_pratt(table, toks)
